@@ -677,6 +677,18 @@ func genExts(r *rand.Rand, p *projSpec, cycles bool) {
 			p.Exts[1].Loads, p.Exts[1].ViaGlobal = 2, r.IntN(2) == 0
 		}
 	}
+	if !cycles && r.IntN(4) == 0 {
+		// the next major version of project 0 as a project of its own (same repository, the
+		// path ...@v2), required by the root next to project 0
+		for len(p.Exts) < extTwin {
+			p.Exts = append(p.Exts, extSpec{Sel: r.IntN(len(extVersions)), Val: genValue(r, valueKinds[:14]), Lit: genValue(r, literalKinds), Loads: -1})
+		}
+		if p.Exts[0].Sel < 0 {
+			p.Exts[0].Sel = r.IntN(len(extVersions))
+		}
+		p.Exts = append(p.Exts[:extTwin:extTwin], extSpec{Sel: r.IntN(len(extVersions)), Val: genValue(r, valueKinds[:14]), Lit: genValue(r, literalKinds), Loads: -1, Util: p.Exts[0].Util})
+		ne = len(p.Exts)
+	}
 	if cycles && ne > 1 && r.IntN(4) == 0 {
 		// the last project loads the first: a load cycle (and a requirement cycle) across projects
 		p.Exts[ne-1].Loads = r.IntN(ne - 1)
